@@ -33,6 +33,8 @@ func main() {
 		cmdDump(os.Args[2:])
 	case "frames":
 		cmdFrames(os.Args[2:])
+	case "sweep":
+		cmdSweep(os.Args[2:])
 	default:
 		fmt.Fprintln(os.Stderr, "unknown command", os.Args[1])
 		os.Exit(2)
